@@ -426,6 +426,15 @@ def _py(hist):
 
 
 # ------------------------------------------------------------------------------------------ E part
+class _Cells(list):
+    """cell matrix compared type-exactly (1 != 1.0 != True, b'z' != 122)"""
+    def __eq__(self, other):
+        return len(self) == len(other) and all(same_list(a, b) for a, b in zip(self, other))
+
+    def __ne__(self, other):
+        return not self.__eq__(other)
+
+
 def unit_tables(unit):
     from serif import Vector, Table
     _, nrows, ncols = unit[:3]
@@ -458,14 +467,6 @@ def unit_tables(unit):
     agg.states += 1
     case = {"rows": nrows, "cols": ncols, "cell_kind": kind}
 
-    class _Cells(list):
-        """cell matrix compared type-exactly (1 != 1.0 != True, b'z' != 122)"""
-        def __eq__(self, other):
-            return len(self) == len(other) and all(same_list(a, b) for a, b in zip(self, other))
-
-        def __ne__(self, other):
-            return not self.__eq__(other)
-
     def cells(t):
         return _Cells(list(c._underlying) for c in t._underlying)
 
@@ -490,7 +491,7 @@ def unit_tables(unit):
             agg.violation(V(site, bad[0], dict(case, detail=bad[1])))
             return
         if cells(r) != want:
-            agg.violation(V(site, "cells-not-preserved", case, want, cells(r)))
+            agg.violation(V(site, "cells-not-preserved", case, [list(map(repr, c)) for c in want], [list(map(repr, c)) for c in cells(r)]))
             return
         agg.outcomes["E-cells-preserved"] += 1
 
